@@ -17,6 +17,16 @@ def gen(rng, cid, sbo=0):
     full = [None] * n          # mirror of the abstract content: (big, copy, mode) or None
     ops = []
     nops = 10 + rng.below(66)
+    arm = [0]               # mirror of the payloads' arming countdown
+
+    def constructs():
+        # one payload copy/move construction is attempted; True = it succeeds
+        if arm[0] == 1:
+            arm[0] = 0
+            return False
+        if arm[0] > 1:
+            arm[0] -= 1
+        return True
 
     def payload(i, cp):
         big = rng.below(2)
@@ -49,10 +59,11 @@ def gen(rng, cid, sbo=0):
                 full[i] = None
             elif name == 'run' and live[i] and not isfn(i):
                 full[i] = None
-            elif name == 'copy' and live[i] and live[j] and kinds[i] == kinds[j] and copyable(i):
-                full[i] = full[j]
+            elif name == 'copy' and live[i] and live[j] and kinds[i] == kinds[j] and copyable(i) and i != j:
+                full[i] = full[j] if (full[j] is None or constructs()) else None
             elif name == 'cctor' and not live[i] and live[j] and kinds[i] == kinds[j] and copyable(i):
-                live[i], full[i] = True, full[j]
+                if full[j] is None or constructs():
+                    live[i], full[i] = True, full[j]
             elif name == 'move' and live[i] and live[j] and mvfrom(i, j) and i != j:
                 full[i], full[j] = full[j], None
             elif name == 'mctor' and not live[i] and live[j] and mvfrom(i, j):
@@ -61,7 +72,12 @@ def gen(rng, cid, sbo=0):
                 full[i], full[j] = full[j], full[i]
             continue
         k = rng.weighted([('newp', 6), ('new', 2), ('set', 7), ('reset', 2), ('del', 2), ('copy', 6), ('move', 6),
-                          ('cctor', 4), ('mctor', 4), ('swap', 4), ('empty', 3), ('use', 12)])
+                          ('cctor', 4), ('mctor', 4), ('swap', 4), ('empty', 3), ('use', 12), ('arm', 2 if not sbo else 0)])
+        if k == 'arm':
+            a = rng.weighted([(1, 5), (2, 3), (3, 1), (0, 1)])
+            ops.append(f'arm {a}')
+            arm[0] = a
+            continue
         if k == 'newp':
             i = pick(lambda i: not live[i])
             if i is None:
@@ -69,7 +85,8 @@ def gen(rng, cid, sbo=0):
             cp = 1 if rng.below(3) == 0 else 0
             big, cpy, mode, v = payload(i, cp)
             ops.append(f'newp {i} {big} {cpy} {mode} {v} {cp}')
-            live[i], full[i] = True, (big, cpy, mode)
+            if constructs():
+                live[i], full[i] = True, (big, cpy, mode)
         elif k == 'new':
             i = pick(lambda i: not live[i])
             if i is None:
@@ -86,7 +103,7 @@ def gen(rng, cid, sbo=0):
             if full[i] is not None and rng.below(2) == 0 and (full[i][1] or not cp):
                 big, cpy, mode = full[i]
             ops.append(f'set {i} {big} {cpy} {mode} {v} {cp}')
-            full[i] = (big, cpy, mode)
+            full[i] = (big, cpy, mode) if constructs() else None
         elif k in ('reset', 'del', 'empty'):
             i = pick(lambda i: live[i])
             if i is None:
@@ -104,7 +121,8 @@ def gen(rng, cid, sbo=0):
             if j is None:
                 continue
             ops.append(f'copy {i} {j}')
-            full[i] = full[j]
+            if i != j:
+                full[i] = full[j] if (full[j] is None or constructs()) else None
         elif k == 'move':
             i = pick(lambda i: live[i])
             if i is None:
@@ -123,7 +141,8 @@ def gen(rng, cid, sbo=0):
             if j is None:
                 continue
             ops.append(f'cctor {i} {j}')
-            live[i], full[i] = True, full[j]
+            if full[j] is None or constructs():
+                live[i], full[i] = True, full[j]
         elif k == 'mctor':
             i = pick(lambda i: not live[i])
             if i is None:
@@ -153,10 +172,10 @@ def gen(rng, cid, sbo=0):
             else:
                 ops.append(f'run {i}')
                 full[i] = None
+    ops = ops[:80]
+    ops.append('arm 0')
     for i in range(n):
-        if live[i]:
-            ops.append(f'del {i}')
-    ops = ops[:80 + n]
+        ops.append(f'del {i}')       # `invalid` (refused by both sides) for slots that are not constructed
     hdr = f'case {cid} kinds={kinds}' + (' sbo=1' if sbo else '')
     return hdr + '\nthread 0: ' + ' ; '.join(ops) + ' ;\nendcase'
 
@@ -181,6 +200,7 @@ def stats(c, r):
         if res[0] == 'ret' and res[-1] == '1':
             d['call_saw_relocation'] = d.get('call_saw_relocation', 0) + 1
     d['objects'] = raw.count(' C') + raw.count(' K') + raw.count(' M')
+    d['constructions_that_threw'] = raw.count(' F')
     return d
 
 
@@ -188,7 +208,7 @@ if __name__ == '__main__':
     e0check.run(dict(
         prop='C18', model='erase', harness='e0/erase.cpp', bin='e0_erase', gen=gen, nontrivial=nontrivial, stats=stats,
         quick=4000, thorough=100000, extra=8000,
-        rule='random histories (10-80 operations over 2-6 wrapper slots of kinds function / unique_function / unique_any_sender / any_sender; operations: default/payload construction, destruction, payload assignment by move or copy, reset, copy/move assignment, copy/move construction, swap, empty(), call, connect&&+start, connect const&+start; payloads small/large, move-only/copyable, returning/throwing, value/error/stopped/connect-throws; about 4% arbitrary possibly-invalid operations); non-trivial = at least one successful two-wrapper operation and one successful use; distinct = distinct history text',
+        rule='random histories (10-80 operations over 2-6 wrapper slots of kinds function / unique_function / unique_any_sender / any_sender; operations: default/payload construction, destruction, payload assignment by move or copy, reset, copy/move assignment, copy/move construction, swap, empty(), call, connect&&+start, connect const&+start; payloads small/large, move-only/copyable, returning/throwing on call, value/error/stopped/connect-throws, copy/move constructors armed to throw at a chosen construction; about 4% arbitrary possibly-invalid operations); non-trivial = at least one successful two-wrapper operation and one successful use; distinct = distinct history text',
         corr_name='E0: for every operation of the history, result and payload constructor/destructor event sequence printed by harness/e0/erase.cpp (real pika wrappers, ASan+UBSan) equal the output of the Lean model Erase.exec',
         assumptions=['shipped configuration only: the sender small-buffer optimisation (PIKA_DETAIL_ENABLE_ANY_SENDER_SBO) is off; the opt-in configuration is modelled (Cfg.sbo) and reported separately, not claimed',
                      'cross-wrapping (a function stored inside a unique_function, an any_sender stored as payload of a unique_any_sender by l-value) is not generated; any_sender&& -> unique_any_sender conversion is'],
